@@ -384,14 +384,14 @@ fn fixed_cases(seed: u64) -> Vec<Case> {
             });
         }
     }
-    // long data: messages and headers of 300 octets up to 1 MiB, with the catalogue's first / last-octet,
+    // long data: messages and headers of 300 octets up to 256 KiB, with the catalogue's first / last-octet,
     // shorter / longer edits
     for (k, (mlens, hlen)) in [
         (vec![5usize, 65537, 32], 0usize),
-        (vec![1 << 20], 17),
+        (vec![1 << 18], 17),
         (vec![300, 1000], 70000),
         (vec![4095, 4096, 4097], 65536),
-        (vec![65535, 1, 65536], 1 << 20),
+        (vec![65535, 1, 65536], 1 << 18),
         (vec![0, 256 * 256 * 3 + 1], 255),
     ]
     .into_iter()
@@ -447,6 +447,41 @@ fn contention(ctx: &Ctx, rep: &Report) {
     }
 }
 
+/// one (message count, header length) point of the header-length sweep
+fn header_len_item(rep: &Report, seed: u64, l: usize, hl: usize) -> CheckResult {
+            let suite = if (l + hl) % 2 == 0 { SuiteId::Sha256 } else { SuiteId::Shake256 };
+            with_suite!(suite, CS => {
+                let kp = keypair::<CS>(&KeySpec { fixture: false, ikm: BSpec { len: 32, class: 0, seed: (seed as u32) ^ l as u32 }, key_info: OptBytes::None, key_dst: OptBytes::None }).unwrap();
+                let (sk, pk) = (kp.private_key(), kp.public_key());
+                let msgs: Vec<Vec<u8>> = (0..l).map(|j| format!("m{}-{}", j, hl).into_bytes()).collect();
+                let header = BSpec { len: hl, class: 0, seed: (hl as u32) ^ 0xABCD }.bytes();
+                let sig = Signature::<BBSplus<CS>>::sign(Some(&msgs), sk, pk, Some(&header)).map_err(|e| Fail { check: "header-length-sweep".into(), site: "sign".into(), msg: format!("{:?}", e), case: json!({"L": l, "header_len": hl}) })?;
+                let mut edits: Vec<(&str, Vec<u8>)> = vec![("one-zero-octet-longer", [header.clone(), vec![0]].concat())];
+                if hl >= 1 {
+                    let mut a = header.clone();
+                    *a.last_mut().unwrap() ^= 1;
+                    edits.push(("last-octet", a));
+                    edits.push(("one-octet-shorter", header[..hl - 1].to_vec()));
+                }
+                if hl >= 8 {
+                    let mut a = header.clone();
+                    a[hl - 8] ^= 0x40;
+                    edits.push(("eighth-octet-from-the-end", a));
+                }
+                rep.eval("header-length-sweep", 1);
+                if sig.verify(pk, Some(&msgs), Some(&header)).is_err() {
+                    return rep.fail("header-length-sweep", "honest-verify-failed", format!("L = {}, header of {} octets", l, hl), json!({"L": l, "header_len": hl, "suite": suite.name()}));
+                }
+                for (tag, h2) in edits {
+                    rep.eval("header-length-sweep", 1);
+                    if sig.verify(pk, Some(&msgs), Some(&h2)).is_ok() {
+                        return rep.fail("header-length-sweep", "accepted:header-edit", format!("L = {}, header of {} octets: verifies with the header {}", l, hl, tag), json!({"L": l, "header_len": hl, "edit": tag, "suite": suite.name()}));
+                    }
+                }
+                Ok(())
+            })
+        }
+
 pub fn run(ctx: &Ctx, rep: &Report) -> Meta {
     contention(ctx, rep);
     let fx = fixed_cases(ctx.seed);
@@ -459,10 +494,21 @@ pub fn run(ctx: &Ctx, rep: &Report) -> Meta {
     if !rep.aborted() {
         rep.exhaustive(format!("every message count L in {} with the sampled-position catalogue", ctx.tier.pick("13..=72 and {127..129, 255..257}", "13..=160 and {255..257, 511..513}")));
     }
+    // every header length: a fixed-size staging buffer, a block boundary or a length prefix that is too narrow bites at
+    // one particular total size; for a few message counts the header takes every length 0..=1100 (quick) / 0..=2400
+    // and the signature must not verify for the header with its last octet changed, one octet shorter or longer
+    {
+        let lens: Vec<(usize, usize)> = [1usize, 3, 10, 17].iter().flat_map(|&l| (0..=ctx.tier.pick(1100usize, 2400usize)).map(move |h| (l, h))).collect();
+        let seed = ctx.seed;
+        par_items(ctx, rep, "header-length-sweep", &lens, |&(l, hl)| header_len_item(rep, seed, l, hl));
+        if !rep.aborted() {
+            rep.exhaustive(format!("every header length 0..={} for L in {{1, 3, 10, 17}} with the tail edits", ctx.tier.pick(1100, 2400)));
+        }
+    }
     let tier = ctx.tier;
-    run_cases(ctx, rep, "mutations", ctx.tier.pick(96, 600), 200, || strat(tier), |c| check(rep, "mutations", c));
+    run_cases(ctx, rep, "mutations", ctx.tier.pick(72, 600), 200, || strat(tier), |c| check(rep, "mutations", c));
     Meta {
-        rule: "honest (suite, key, header, msgs, signature) then the mutation catalogue enumerated per case: message byte change (random octet; first / last octet, one octet shorter / longer, leading zero octet for the first, last and one random message) / delete / prefix at every position, long data (messages and headers of 300 octets to 1 MiB), \
+        rule: "honest (suite, key, header, msgs, signature) then the mutation catalogue enumerated per case: message byte change (random octet; first / last octet, one octet shorter / longer, leading zero octet for the first, last and one random message) / delete / prefix at every position, long data (messages and headers of 300 octets to 256 KiB), header-length-sweep: every header length 0..=1100 (quick) / 2400 for L in {1, 3, 10, 17} with tail edits, \
                insert (random, empty, neighbour) at every position 0..=L, extension by 1..=3, swap and replace-by-other of every pair with different contents (all pairs for L<=12), \
                header edits as octet strings, pk in {other key, pk+G2, -pk}, every single-bit flip of the 80 signature octets (all 640 for L<=12), cross-suite, cross-interface in both directions (including the degenerate blind signature without commitment and without messages under every spelling of 'nothing', and the header-only plain signature through the blind verifier); \
                the same catalogue under contention in a cold process, re-priming with the honest verification before the spelling / suite / interface families, all pairs swapped for half of the fixed shapes up to L = 33; oracle: every mutated verification (or decoding) returns Err; non-trivial = honest case with >= 5 mutation families executed; evaluations = mutated verifications"
@@ -480,6 +526,14 @@ pub fn replay(ctx: &Ctx, rep: &Report, ck: &str, case: &Value) -> CheckResult {
         let before = rep.violation_count();
         contention(ctx, rep);
         return if rep.violation_count() > before { Err(Fail { check: ck.into(), site: "reproduced-under-contention".into(), msg: "the contention check fails again".into(), case: case.clone() }) } else { Ok(()) };
+    }
+    if ck == "header-length-sweep" {
+        let (l, hl) = match (case["L"].as_u64(), case["header_len"].as_u64(), case["case"].as_array()) {
+            (Some(l), Some(h), _) => (l as usize, h as usize),
+            (_, _, Some(a)) if a.len() == 2 => (a[0].as_u64().unwrap_or(1) as usize, a[1].as_u64().unwrap_or(0) as usize),
+            _ => return Err(Fail { check: ck.into(), site: "replay-parse".into(), msg: "no (L, header_len) in the case".into(), case: case.clone() }),
+        };
+        return header_len_item(rep, ctx.seed, l, hl);
     }
     let c: Case = serde_json::from_value(case["case"].clone()).map_err(|e| Fail {
         check: ck.into(),
